@@ -18,6 +18,8 @@ enum Verdict {
     Accept,
     Zero,
     ModN,
+    /// refused with an error kind other than the two the property names
+    Other,
 }
 
 fn want(k: &[u8; 32]) -> Verdict {
@@ -65,6 +67,9 @@ pub fn check_key(report: &Report, k: &[u8; 32], origin: &str) -> bool {
         }
         Ok(Err(InvalidPublicKeyError::PublicKeyIsZero)) => Verdict::Zero,
         Ok(Err(InvalidPublicKeyError::PublicKeyModLargeSafePrimeIsZero)) => Verdict::ModN,
+        // a kind this harness does not know (the enum may grow): neither of the two the property names
+        #[allow(unreachable_patterns)]
+        Ok(Err(_)) => Verdict::Other,
     };
     if got != w {
         let class = match (w, got) {
